@@ -69,10 +69,18 @@ func c18Run(c *vk.Case) {
 		nig = r.Range(2, 4)
 	}
 	evInputs := c14Event
+	// half of the shared-client cases: every integration has the SAME plan and start, so all of them read the
+	// very same cached segments and attach the same kind of data to their copies at the same time
+	samePlan := !familyA && c.Index%4 == 1
+	commonStart := uint64(1 + r.Intn(3))
 	for i := 0; i < nig; i++ {
 		d := &model.Decl{Name: namePoolIG[i], Enabled: true, Table: namePoolTbl[i], ColTypes: map[string]string{}, InFilter: map[string]model.Filter{}}
 		d.Sources = []model.SrcRef{{Name: namePoolSrc[0], Start: uint64(1 + r.Intn(3))}}
 		plan := c18Plans[(c.Index/2+i)%len(c18Plans)]
+		if samePlan {
+			plan = c18Plans[(c.Index/4)%len(c18Plans)]
+			d.Sources[0].Start = commonStart
+		}
 		isLog := false
 		for _, f := range plan {
 			fi := gen.FieldByName(f)
@@ -237,7 +245,7 @@ func c18Run(c *vk.Case) {
 		for _, t := range env.Tasks {
 			plans += t.VerifInfo().Filter + ";"
 		}
-		c.SetSig("family=%v conc=%s plans=%s reorgs=%v pollfail=%v", map[bool]string{true: "A", false: "B"}[familyA], cc, plans, reorgs > 0, atomic.LoadInt64(&pollerFails) > 0)
+		c.SetSig("family=%v same=%v conc=%s plans=%s reorgs=%v pollfail=%v", map[bool]string{true: "A", false: "B"}[familyA], samePlan, cc, plans, reorgs > 0, atomic.LoadInt64(&pollerFails) > 0)
 	}
 	if c.Index < 2 {
 		c.Sample(map[string]any{"config": string(env.ConfJSON), "converge_calls": n, "events": nevents, "reorgs": reorgs, "max_inflight": node.MaxInflight()})
